@@ -170,6 +170,34 @@ def _gen_http_headers(headers):
     return retval
 
 
+class _ClosingIterator(object):
+    """Iterates over the response body and runs the finalizer exactly once:
+    either when the body is exhausted or when the WSGI server calls close()
+    (e.g. because the client went away), whichever comes first."""
+
+    def __init__(self, body, finalizer):
+        self._body = iter(body)
+        self._finalizer = finalizer
+        self._finalized = False
+
+    def __iter__(self):
+        return self
+
+    def __next__(self):
+        try:
+            return next(self._body)
+        except StopIteration:
+            self.close()
+            raise
+
+    next = __next__
+
+    def close(self):
+        if not self._finalized:
+            self._finalized = True
+            self._finalizer()
+
+
 class WsgiTransportContext(HttpTransportContext):
     """The class that is used in the transport attribute of the
     :class:`WsgiMethodContext` class."""
@@ -406,7 +434,8 @@ class WsgiApplication(HttpBase):
             # Report but ignore any exceptions from auxiliary methods.
             logger.exception(e)
 
-        return chain(p_ctx.out_string, self.__finalize(p_ctx))
+        return _ClosingIterator(p_ctx.out_string,
+                                          lambda: self.__finalize(p_ctx))
 
     def handle_rpc(self, req_env, start_response):
         initial_ctx = WsgiMethodContext(self, req_env,
@@ -504,7 +533,8 @@ class WsgiApplication(HttpBase):
         start_response(p_ctx.transport.resp_code,
                                 _gen_http_headers(p_ctx.transport.resp_headers))
 
-        retval = chain(p_ctx.out_string, self.__finalize(p_ctx))
+        retval = _ClosingIterator(p_ctx.out_string,
+                                          lambda: self.__finalize(p_ctx))
 
         try:
             process_contexts(self, others, p_ctx, error=None)
